@@ -1,6 +1,7 @@
 import Driver.Util
 import GrVerif.Model.Pass
 import GrVerif.Proofs.Fsm
+import GrVerif.Model.Position
 namespace Driver.Shape
 open GrVerif.Vm GrVerif.Seg GrVerif.Action GrVerif.Pass Driver
 
@@ -78,6 +79,7 @@ def step (line : String) : String :=
           allSome ((ps.splitOn "|").map parsePass), parseHexUnits 8 tx with
     | some ipos, some cls, some ga, some passes, some text =>
       let font : Font := { passes := passes.toArray, ipos := ipos, classes := cls.toArray, gattr := (ga.map List.toArray).toArray,
+                           gadv := ((field ws "gadv").bind fun g => ints g ".").getD [] |>.toArray,
                            cmap := fun ch => if 0x61 ≤ ch ∧ ch ≤ 0x69 then ch - 0x60 else 0 }
       match shape font text.toList 100000 with
       | .error w => "fault " ++ w
@@ -85,11 +87,15 @@ def step (line : String) : String :=
       | .ok (some (cx, chars)) =>
         let seg := cx.seg
         let l := streamOf seg
+        -- final positioning in design units (no font): `Segment::finalise` -> positionSlots
+        let pr := GrVerif.Pos.positionSlots seg 1 l
+        let showR (q : Rat) : String := if q.den = 1 then toString q.num else s!"{q.num}/{q.den}"
         let slots := l.map fun i =>
           let sl := seg.get i
-          s!"s:{sl.gid},{sl.before},{sl.after},{sl.original},{posIn l sl.parent},{posIn l sl.child}"
+          let o := pr.2.getPos i
+          s!"s:{sl.gid},{sl.before},{sl.after},{sl.original},{posIn l sl.parent},{posIn l sl.child},{showR o.1},{showR o.2},{sl.advX}"
         let tb := String.join ((ps.splitOn "|").zip passes |>.map fun (src, p) => trieBit p (parsePats src))
-        String.intercalate " " (s!"trie={tb} loop={cx.vIter}/{cx.vBound} passes={cx.vCalls} exceeded={if cx.vExceeded then 1 else 0} n={seg.numGlyphs} walk={l.length}" :: slots)
+        String.intercalate " " (s!"trie={tb} loop={cx.vIter}/{cx.vBound} passes={cx.vCalls} exceeded={if cx.vExceeded then 1 else 0} n={seg.numGlyphs} walk={l.length} adv={showR pr.1.1},{showR pr.1.2}" :: slots)
     | _, _, _, _, _ => "bad-op"
   | _, _, _, _, _, _ => "bad-op"
 
